@@ -80,6 +80,10 @@ func (m *Type) Clone(reuse *Type) *Type {
 		newStack = make([]value.Type, newStackSize)
 	}
 
+	// The clone starts from the parent's closure frames but must not share spare
+	// capacity with it: pushes on either side would overwrite the other's frames.
+	closure := m.closure[:len(m.closure):len(m.closure)]
+
 	var newFP []int
 	if reuse != nil {
 		newFP = reuse.fp[:0]
@@ -88,7 +92,7 @@ func (m *Type) Clone(reuse *Type) *Type {
 	}
 
 	if len(m.fp) < 2 {
-		return &Type{sp: 0, fp: newFP, global: m.global, closure: m.closure, stack: newStack}
+		return &Type{sp: 0, fp: newFP, global: m.global, closure: closure, stack: newStack}
 	}
 
 	fp := m.fp[len(m.fp)+localFP]
@@ -101,12 +105,12 @@ func (m *Type) Clone(reuse *Type) *Type {
 		reuse.sp = m.sp - fp
 		reuse.fp = newFP
 		reuse.global = m.global
-		reuse.closure = m.closure
+		reuse.closure = closure
 		reuse.stack = newStack
 		return reuse
 	}
 
-	return &Type{sp: m.sp - fp, fp: newFP, global: m.global, closure: m.closure, stack: newStack}
+	return &Type{sp: m.sp - fp, fp: newFP, global: m.global, closure: closure, stack: newStack}
 }
 
 // CallDepth is the number of call frames.
